@@ -120,7 +120,7 @@ def tla_set(xs):
     return "{" + ", ".join('"%s"' % x if isinstance(x, str) else str(x) for x in xs) + "}"
 
 
-def tlc_trace(run, module, base_cfg, trace, overrides=None, tag="tv", timeout=1800):
+def tlc_trace(run, module, base_cfg, trace, overrides=None, tag="tv", timeout=1800, env=None):
     """Validate one NDJSON trace against <module>.tla; returns the REPORT dict."""
     cfg = run.path("%s-%s.cfg" % (module, tag))
     write_cfg(cfg, base_cfg, overrides or {})
@@ -129,7 +129,7 @@ def tlc_trace(run, module, base_cfg, trace, overrides=None, tag="tv", timeout=18
            "-config", cfg, os.path.join(SPEC, module + ".tla")]
     t_tv = time.time()
     p = subprocess.run(["timeout", str(timeout)] + cmd, cwd=SPEC,
-                       env=_tlc_env({"TRACE": trace}, JAVA_TV + " -Xmx6g"),
+                       env=_tlc_env(dict({"TRACE": trace}, **(env or {})), JAVA_TV + " -Xmx6g"),
                        stdout=subprocess.PIPE, stderr=subprocess.STDOUT, text=True)
     out = p.stdout
     run.timing["tlc_trace"] = round(run.timing.get("tlc_trace", 0) + time.time() - t_tv, 1)
@@ -269,7 +269,7 @@ def match_known(pid, shape):
     return None
 
 
-def record_violations(run, pid, viols, trace_lines, scen_of_line=None, trace_name="trace", whole_case=False):
+def record_violations(run, pid, viols, trace_lines, scen_of_line=None, trace_name="trace", whole_case=False, max_prefix=None):
     """viols: list of [property, line, shape].  Splits into known / new; writes
     a replay (trace prefix up to the offending line) for the first new ones."""
     new = 0
@@ -287,13 +287,15 @@ def record_violations(run, pid, viols, trace_lines, scen_of_line=None, trace_nam
             run.violations.append({"property": pid, "shape": shape, "line": line, "replay": None})
             continue
         os.makedirs(os.path.join(REPLAYS, pid), exist_ok=True)
-        rp = os.path.join(REPLAYS, pid, "%s-seed%d-%s-l%d.ndjson" % (trace_name, run.seed, shape[:40], line))
+        rp = os.path.join(REPLAYS, pid, "%s-seed%d-%s-l%d.ndjson" % (trace_name, run.seed, re.sub(r"[^A-Za-z0-9_.@-]", "_", shape[:60]), line))
         # prefix from the last reset before `line`
         start = 0
         for i in range(min(line, len(trace_lines)) - 1, -1, -1):
             if '"ev":"reset"' in trace_lines[i] or '"ev": "reset"' in trace_lines[i] or (whole_case and '"ev":"case"' in trace_lines[i][:600]):
                 start = i
                 break
+        if max_prefix is not None:
+            start = max(start, line - max_prefix)
         with open(rp, "w") as fh:
             fh.write(json.dumps({"replay_of": pid, "shape": shape, "seed": run.seed, "tier": run.tier,
                                  "offending_line_in_this_file": line - start + 1,
@@ -323,7 +325,7 @@ def direct_violation(run, pid, shape, detail, replay_obj):
     if len(run.violations) < 5:
         os.makedirs(os.path.join(REPLAYS, pid), exist_ok=True)
         h = hashlib.sha1(json.dumps(replay_obj, sort_keys=True).encode()).hexdigest()[:10]
-        rp = os.path.join(REPLAYS, pid, "%s-%s.json" % (shape[:40], h))
+        rp = os.path.join(REPLAYS, pid, "%s-%s.json" % (re.sub(r"[^A-Za-z0-9_.@-]", "_", shape[:60]), h))
         json.dump({"property": pid, "shape": shape, "detail": detail, "case": replay_obj}, open(rp, "w"), indent=1)
     else:
         rp = None
